@@ -135,6 +135,19 @@ impl Oracle {
                 self.seed.insert(gid, seed.clone());
             }
             self.revealed.insert(gid);
+            if ctx.ch.chance(1, 8) {
+                // API misuse right before the valid derivation: a key buffer of the wrong length for another
+                // seed (a panic the aggregator survives); it must not colour the derivation that follows
+                let len = *ctx.ch.pick(&[0usize, 15, 17, 32]);
+                let mut wrong = vec![0u8; len];
+                let other: Vec<u8> = seed.iter().map(|b| b ^ 0x5a).collect();
+                let epoch = g.epoch.clone();
+                let refused = crate::runner::guarded(move || derive_ske_key(&other, &epoch, &mut wrong)).is_err();
+                ctx.stats.fault("wrong_length_key_buffer");
+                if refused {
+                    ctx.stats.probe("wrong_length_key_buffer_refused_then_valid_derivation");
+                }
+            }
             let mut key = vec![0u8; 16];
             derive_ske_key(&seed, &g.epoch, &mut key);
             // ---- every delivered report of the group decrypts to what its client supplied
